@@ -2,11 +2,13 @@
    CHtml: (DisableTelegramEscape, URL oracle table, builder ops performed before html.HTML, token
            stream of x/net/html, observation of html.HTML + Builder.Complete)
    CUnesc: telegramUnescape input / output (byte-exact).
+   CMd: (utf8.Valid(source), goldmark AST projected to the renderer's node kinds, observation of
+        markdown.Markdown + Builder.Complete).
    Observation: None = panic, Some None = error, Some (Some (text, entities)).  Entity order is
    compared exactly up to 12 entities (see Check_C35). *)
 From Coq Require Import List ZArith Bool.
 From TD Require Import Lib.RunLib Lib.GoSem Lib.Utf Lib.Bytes Run.Check_C35.
-From TD Require Export Model.EntitySort Model.Entity Model.Html.
+From TD Require Export Model.EntitySort Model.Entity Model.Html Model.Markdown.
 Import ListNotations.
 Open Scope Z_scope.
 
@@ -14,7 +16,8 @@ Definition B := Check_C35.B.
 Definition hobs := option (option (list Z * list (Z * Z * Z))).
 Inductive case :=
 | CHtml (disable : bool) (utab : list (list Z * Z)) (pre : list op) (toks : list htok) (o : hobs)
-| CUnesc (inp outp : list Z).
+| CUnesc (inp outp : list Z)
+| CMd (src_valid : bool) (doc : mdbs) (o : hobs).
 
 Definition hres_eqb (m : res unit (list Z * list ent)) (o : hobs) : bool :=
   match m, o with
@@ -29,5 +32,6 @@ Definition ok (c : case) : bool :=
   | CHtml disable utab pre toks o =>
     let '(m, _) := exec m_init pre in hres_eqb (html_complete disable utab (m_b m) toks) o
   | CUnesc i o => zlist_eqb (telegram_unescape i) o
+  | CMd v doc o => hres_eqb (markdown_complete v b_init doc) o
   end.
 Definition mismatches (cs : list case) : list nat := mismatch_idx ok cs.
